@@ -277,4 +277,15 @@ class C13(SimCheck):
     required_counters = ["c13.dns_results_checked", "c13.with_cname_chain", "c13.reverse_names_checked", "c13.hosts_results_checked"]
 
 
-CHECKS = {"C12": C12, "C13": C13, "C08": C08, "C19": C19, "C02": C02, "C03": C03, "C04": C04, "C18": C18, "C01": C01, "C05": C05, "C06": C06, "C07": C07, "C10": C10, "C20": C20}
+class C09(SimCheck):
+    pid = "C09"
+    rule = ("1-5 servers, rotate on/off, failover options (chance 0/1/10, delay 0..60000 ms), per-attempt outcomes from the table, set_servers edits in flight; reference model fed only by public "
+            "observations: consecutive-failure counters reconstructed from the ares_set_server_state_callback stream, merged in observation order with configured lists and transmissions; oracle: every "
+            "UDP transmission of a user query that is not an EDNS-downgrade resend goes to a server with the minimum counter (the first such in configuration order without rotate); a probe copy (second "
+            "id for the same question) goes only to a server with failures > 0 whose retry delay has passed, never when failover is disabled, and its reply never reaches the user; accepted answers are "
+            "reported as success of that server; after ares_set_servers* the channel reports exactly the given set. non-trivial = a selection was checked after some server had failed (>= 2 servers); "
+            "distinct = distinct scenario text")
+    required_counters = ["c09.selections_checked", "c09.selections_after_failures", "c09.probe_copies"]
+
+
+CHECKS = {"C09": C09, "C12": C12, "C13": C13, "C08": C08, "C19": C19, "C02": C02, "C03": C03, "C04": C04, "C18": C18, "C01": C01, "C05": C05, "C06": C06, "C07": C07, "C10": C10, "C20": C20}
